@@ -156,3 +156,41 @@ def mark_shadow_lets(stmts, tr):
 
 def shadow_ok(tr, stmt):
     return getattr(tr, 'shadow_lets', {}).get(id(stmt)) is stmt
+
+
+# ------------------------------------------------------------------------------------------------ capacities
+# `String::with_capacity(n)` / `Vec::<T>::with_capacity(n)` / `reserve(n)`: the ARGUMENT is not dropped. Rust evaluates it (an
+# overflowing `+` / `*` panics in a build with overflow checks and wraps otherwise - here: the panic outcome "capacity arithmetic
+# overflow", the profile in which the defect shows) and then panics with "capacity overflow" when `n * size_of::<T>()` exceeds
+# `isize::MAX`. ADAPTOR FACT (LEN), stated here once: the `len()` of a `&str` / `String` / `Vec` is at most `isize::MAX` (an
+# invariant of Rust's allocations and slices). The translators use it STATICALLY: `cap_bound` computes an upper bound of the
+# argument with every `len()` leaf replaced by `isize::MAX`; when that bound (times the element size) is within `isize::MAX`
+# neither panic is possible and nothing is generated (`with_capacity(text.len())`, `with_capacity(text.len() + 0)`); otherwise the
+# checks are generated with CHECKED `usize` arithmetic (`cap_opt_add` / `cap_opt_mul`) and the comparison with `isize::MAX`.
+ISIZE_MAX = (1 << 63) - 1
+USIZE_MAX = (1 << 64) - 1
+
+
+def cap_bound(e, leaf):
+    """an upper bound of the capacity expression `e`, or None (unbounded). `leaf(e)` -> a bound for a leaf (a `len()`: ISIZE_MAX) or None"""
+    e = strip(e)
+    if e[0] == 'int':
+        return e[1]
+    if e[0] == 'bin' and e[1] in ('+', '*'):
+        a, b = cap_bound(e[2], leaf), cap_bound(e[3], leaf)
+        if a is None or b is None:
+            return None
+        return a + b if e[1] == '+' else a * b
+    return leaf(e)
+
+
+def cap_opt(e, value):
+    """Lean text of type `Option Nat`: the value of the capacity expression with checked `usize` `+` / `*` (`none` = overflow);
+    `value(e)` -> the Lean text of a leaf"""
+    e = strip(e)
+    if e[0] == 'int':
+        return '(some %d)' % e[1]
+    if e[0] == 'bin' and e[1] in ('+', '*'):
+        return ('(Option.bind %s fun x_ => Option.bind %s fun y_ => if x_ %s y_ ≤ %d then some (x_ %s y_) else none)'
+                % (cap_opt(e[2], value), cap_opt(e[3], value), e[1], USIZE_MAX, e[1]))
+    return '(some %s)' % value(e)
